@@ -61,6 +61,9 @@ let handle check diff (toks : string list) (raw : string) : bool =
     let l = log_of lin in l := WBlock b :: !l; true
   | "CW" :: lin :: ("R" | "X") :: r :: [] -> let l = log_of lin in l := WRound (z r) :: !l; true
   | "CW" :: lin :: "F" :: r :: [] -> let l = log_of lin in l := WFrame (z r) :: !l; true
+  | "CT" :: lin :: [] ->
+    (* the process died inside the newest write of this lineage: it was never acknowledged *)
+    let l = log_of lin in (match !l with _ :: r -> l := r | [] -> ()); true
   | "CC" :: id :: lin :: k :: self :: rest ->
     let (gen, rest) = take_until "|" rest in
     let (ids, obs) = take_until "=>" rest in
